@@ -72,8 +72,22 @@ def impl(case):
         def run():
             f = io.BytesIO()
             b = mciipm.Block1014(f)
-            for w in chunks(case):
-                b.write(w)
+            ws = chunks(case)
+            style = sum(case['writes']) % 3
+            if style == 1 and ws:
+                # the usual copy loop: ONE buffer is refilled and a view of it is handed to write() each time
+                buf = bytearray(max(len(w) for w in ws) or 1)
+                view = memoryview(buf)
+                for w in ws:
+                    buf[:len(w)] = w
+                    b.write(view[:len(w)])
+                    buf[:len(w)] = b'\xee' * len(w)      # the caller reuses its buffer at once
+            elif style == 2:
+                for w in ws:
+                    b.write(bytearray(w))
+            else:
+                for w in ws:
+                    b.write(w)
             b.seek(0)          # finalises, as VbsWriter.close does
             return f.getvalue()
 
